@@ -159,6 +159,19 @@ fn seq_is_empty_somewhere(seq: &Seq) -> bool {
     })
 }
 
+/// A (sub-)expression that consists solely of a tree wildcard matches everything by a documented
+/// special case; transformations that create one are not comparable.
+fn lone_tree(seq: &Seq) -> bool {
+    if seq.toks.len() == 1 && matches!(seq.toks[0].node, Node::Tree { .. }) {
+        return true;
+    }
+    seq.toks.iter().any(|t| match &t.node {
+        Node::Alt(bs) => bs.iter().any(lone_tree),
+        Node::Rep { body, .. } => lone_tree(body),
+        _ => false,
+    })
+}
+
 pub const UNROLL_CAP: u64 = 4;
 
 pub fn families(ast: &Ast) -> Vec<Family> {
@@ -166,12 +179,30 @@ pub fn families(ast: &Ast) -> Vec<Family> {
     let mut out = Vec::new();
     let mut whole = String::new();
     unparse_seq(&ast.seq, explicit, &mut whole);
+    // Targets: branch tokens that are not inside a repetition that can iterate more than once
+    // (inside such a repetition every iteration chooses independently, so substitution and
+    // unrolling of an inner branch are not laws).
     let mut targets: Vec<(Tok, usize)> = Vec::new();
-    ast.seq.walk(&mut |t, d| {
-        if matches!(t.node, Node::Alt(_) | Node::Rep { .. }) {
-            targets.push((t.clone(), d));
+    fn collect(seq: &Seq, d: usize, targets: &mut Vec<(Tok, usize)>) {
+        for t in &seq.toks {
+            match &t.node {
+                Node::Alt(bs) => {
+                    targets.push((t.clone(), d));
+                    for b in bs {
+                        collect(b, d + 1, targets);
+                    }
+                },
+                Node::Rep { body, lo, hi } => {
+                    targets.push((t.clone(), d));
+                    if *lo == 1 && *hi == Some(1) {
+                        collect(body, d + 1, targets);
+                    }
+                },
+                _ => {},
+            }
         }
-    });
+    }
+    collect(&ast.seq, 0, &mut targets);
     for (t, depth) in targets {
         match &t.node {
             Node::Alt(bs) => {
@@ -207,6 +238,10 @@ pub fn families(ast: &Ast) -> Vec<Family> {
                         rep.extend(body.toks.iter().cloned());
                     }
                     let s = replace_in_seq(&ast.seq, t.id, &rep);
+                    if lone_tree(&s) {
+                        ok = false;
+                        break;
+                    }
                     if seq_is_empty_somewhere(&s) {
                         if s.toks.is_empty() {
                             // The whole expression became empty: the empty glob.
